@@ -146,3 +146,92 @@ where
     }
     Ok(())
 }
+
+/// Verification wrappers (only compiled with `--cfg octo_verif`): public constructors for the
+/// server codecs, with items converted to a public enum (the message types are crate-private).
+#[cfg(octo_verif)]
+pub mod verif {
+    use std::net::SocketAddr;
+
+    use bytes::BytesMut;
+    use octo_squirrel::config::ServerConfig;
+    use octo_squirrel::protocol::Protocol;
+    use octo_squirrel::protocol::address::Address;
+    use tokio_util::codec::Decoder;
+    use tokio_util::codec::Encoder;
+
+    use super::config::SslConfig;
+    use super::shadowsocks;
+    use super::template::message::InboundIn;
+    use super::template::message::OutboundIn;
+    use super::trojan;
+    use super::vmess;
+
+    #[derive(Debug, Clone, PartialEq, Eq)]
+    pub enum In {
+        ConnectTcp(BytesMut, Address),
+        RelayTcp(BytesMut),
+        RelayUdp(BytesMut, Address),
+    }
+
+    #[derive(Debug, Clone)]
+    pub enum Out {
+        Tcp(BytesMut),
+        Udp(BytesMut, SocketAddr),
+    }
+
+    pub(super) trait Inner: Encoder<OutboundIn, Error = anyhow::Error> + Decoder<Item = InboundIn, Error = anyhow::Error> + Send + Unpin {}
+    impl<T> Inner for T where T: Encoder<OutboundIn, Error = anyhow::Error> + Decoder<Item = InboundIn, Error = anyhow::Error> + Send + Unpin {}
+
+    /// The codec `startup_tcp` / `startup_quic` would build for one accepted connection.
+    pub struct ServerCodec(Box<dyn Inner>);
+
+    impl Decoder for ServerCodec {
+        type Item = In;
+        type Error = anyhow::Error;
+
+        fn decode(&mut self, src: &mut BytesMut) -> anyhow::Result<Option<In>> {
+            Ok(self.0.decode(src)?.map(|i| match i {
+                InboundIn::ConnectTcp(b, a) => In::ConnectTcp(b, a),
+                InboundIn::RelayTcp(b) => In::RelayTcp(b),
+                InboundIn::RelayUdp(b, a) => In::RelayUdp(b, a),
+            }))
+        }
+    }
+
+    impl Encoder<Out> for ServerCodec {
+        type Error = anyhow::Error;
+
+        fn encode(&mut self, item: Out, dst: &mut BytesMut) -> anyhow::Result<()> {
+            match item {
+                Out::Tcp(b) => self.0.encode(OutboundIn::Tcp(b), dst),
+                Out::Udp(b, a) => self.0.encode(OutboundIn::Udp((b, a)), dst),
+            }
+        }
+    }
+
+    pub fn parse_config(json: &str) -> anyhow::Result<ServerConfig<SslConfig>> {
+        Ok(serde_json::from_str(json)?)
+    }
+
+    /// A factory holding the per-listener shared context (salt cache, user table).
+    pub struct Listener(Box<dyn Fn() -> anyhow::Result<ServerCodec> + Send + Sync>);
+
+    impl Listener {
+        pub fn new_codec(&self) -> anyhow::Result<ServerCodec> {
+            (self.0)()
+        }
+    }
+
+    pub fn listener(config_json: &str) -> anyhow::Result<Listener> {
+        let config = parse_config(config_json)?;
+        Ok(match config.protocol {
+            Protocol::Shadowsocks => {
+                let factory = shadowsocks::verif_tcp_factory(&config)?;
+                Listener(Box::new(move || Ok(ServerCodec(factory()?))))
+            }
+            Protocol::VMess => Listener(Box::new(move || Ok(ServerCodec(Box::new(vmess::new_codec(&config)?))))),
+            Protocol::Trojan => Listener(Box::new(move || Ok(ServerCodec(Box::new(trojan::new_codec(&config)?))))),
+        })
+    }
+}
